@@ -335,11 +335,17 @@ impl RpcActor {
 
     pub(super) async fn doc_drop(&self, req: DropRequest) -> RpcResult<DropResponse> {
         let DropRequest { doc_id } = req;
-        self.leave(doc_id, true)
+        // Release the engine's own handle, but keep the event subscribers: the drop is refused
+        // while someone else still holds the document open, and then nothing may change for them.
+        self.leave(doc_id, false)
             .await
             .map_err(|e| RpcError::new(&*e))?;
         self.sync
             .drop_replica(doc_id)
+            .await
+            .map_err(|e| RpcError::new(&*e))?;
+        // The document is gone: end the event streams of its subscribers.
+        self.leave(doc_id, true)
             .await
             .map_err(|e| RpcError::new(&*e))?;
         Ok(DropResponse {})
